@@ -4,6 +4,7 @@ mod c17;
 mod c19;
 mod codec;
 mod space;
+mod streams;
 mod tables;
 
 fn main() {
@@ -13,6 +14,9 @@ fn main() {
         "C03" => codec::run_c03(&ctx),
         "C20" => codec::run_c20(&ctx),
         "C04" => c04::run(&ctx),
+        "C05" => streams::run_c05(&ctx),
+        "C06" => streams::run_c06(&ctx),
+        "C07" => streams::run_c07(&ctx),
         "C13" => tables::run_c13(&ctx),
         "C14" => tables::run_c14(&ctx),
         "C16" => tables::run_c16(&ctx),
